@@ -15,9 +15,9 @@ Section Loose.
 Variable B : Z.
 Hypothesis HB : 2 <= B.
 
-(** less than B units in the last place of the RESULT r (at precision p) *)
+(** less than two units in the last place of the RESULT r (at precision p) *)
 Definition Loose (p : Z) (t r : R) : Prop :=
-  exists E, (bpw B E <= Rabs r)%R /\ (Rabs (r - t) < bpw B (E - p + 2))%R.
+  exists E, (bpw B E <= Rabs r)%R /\ (Rabs (r - t) < 2 * bpw B (E - p + 1))%R.
 
 Lemma loose_ulp_sound pr p T rs re t :
   encl T t -> loose_ulp pr B p T rs re = VAccept -> Loose p t (fval B rs re).
@@ -28,8 +28,9 @@ Proof.
   apply (fle_correct B HB) in G1. exists E. split.
   - rewrite (fval_1 B) in G1. unfold fval in *. rewrite abs_IZR in G1.
     rewrite Rabs_mult, (Rabs_pos_eq (powerRZ _ _)). exact G1. left. apply (bpw_pos B HB).
-  - apply sign_strict_gt with (t := (bpw B (E - p + 2) - Rabs (fval B rs re - t))%R) in G2. lra.
-    apply encl_sub. apply ival_one; assumption. apply encl_abs, encl_sub; [apply ival_correct; assumption|exact Ht].
+  - apply sign_strict_gt with (t := (fval B 2 (E - p + 1) - Rabs (fval B rs re - t))%R) in G2.
+    unfold fval at 1 in G2. fold (bpw B (E - p + 1)) in G2. lra.
+    apply encl_sub. apply ival_correct; assumption. apply encl_abs, encl_sub; [apply ival_correct; assumption|exact Ht].
 Qed.
 
 Theorem loose_exp_sound prt pra p s e rs re :
